@@ -21,6 +21,9 @@ type c02Case struct {
 	Thr    float64   `json:"thr"`
 	Corpus corpusSel `json:"corpus"`
 	In     recipe    `json:"in"`
+	// Trace > 0: scoring is traced (no-op tracer) while the input is matched; 1 = all phases, all licenses,
+	// 2 = phase "score" for every License/*. Small corpora only (the dump of every diff is slow).
+	Trace int `json:"trace,omitempty"`
 }
 
 func c02Gen(t *rapid.T) interface{} {
@@ -28,6 +31,9 @@ func c02Gen(t *rapid.T) interface{} {
 	c.Corpus, c.Thr = genCorpusThr(t, 0.5, 6)
 	c.In = genRecipe(t, c.Thr)
 	if !c.Corpus.Full {
+		if lib.IntN(t, 0, 3, "trace") == 0 {
+			c.Trace = lib.IntN(t, 1, 2, "traceKind")
+		}
 		c.Corpus = smallCorpusAround(t, c.In.docs())
 		if c.Corpus.ReAdd && len(c.In.docs()) > 0 && lib.Bool(t, "inputIsOlderRevision") {
 			// the corpus entry was replaced: a text equal to what it held before must be scored against what it holds now
@@ -131,9 +137,20 @@ func c02Check(ci interface{}) lib.Outcome {
 	}
 	cl := classifierFor(c.Thr, c.Corpus)
 	input := c.In.build(cl)
+	if c.Trace > 0 && !c.Corpus.Full {
+		tc := &TraceConfiguration{TracePhases: "*", TraceLicenses: "*", Tracer: func(string, ...interface{}) {}}
+		if c.Trace == 2 {
+			tc = &TraceConfiguration{TracePhases: "score", TraceLicenses: "License/*,Header/*", Tracer: func(string, ...interface{}) {}}
+		}
+		cl.SetTraceConfiguration(tc)
+	}
 	res := cl.Match(input)
+	cl.SetTraceConfiguration(nil)
 	toks := ids(cl, input)
 	classes := recipeClasses(c.In)
+	if c.Trace > 0 && !c.Corpus.Full {
+		classes = append(classes, "scoring-traced")
+	}
 	fuzzy, exact, tight, slack := 0, 0, 0, 0
 	for _, m := range res.Matches {
 		if m.MatchType == "Copyright" {
